@@ -119,7 +119,11 @@ def _redeliver(case: dict) -> dict:
         v, o = c02.effect_oracles(spec, run, prop="C09")
         obs.update(o)
         rc, tc = oracles.exec_counts(ref.ledger), oracles.exec_counts(run.ledger)
-        if rc != tc:
+        if rc != tc and all(tc.get(k, 0) <= rc.get(k, 0) for k in tc) and oracles.wait_budget_gave_up(run):
+            # redeliveries and rescheduled (delayed) deliveries stretched the run until a CompleteWorkflow poll chain
+            # used up its wait budget (6 in the harness environment): legal, and says nothing about dedup
+            obs["wait_budget_endings"] += 1
+        elif rc != tc:
             v.append(viol("C09/execution-count-differs", f"{ {str(k): (rc.get(k, 0), tc.get(k, 0)) for k in set(rc) | set(tc) if rc.get(k, 0) != tc.get(k, 0)} }"))
         v = oracles.attribute(v, run, "C09")
         for x in v:
